@@ -37,6 +37,19 @@ CHECKS = {
             "engine that executed other programs before; accepted iff all answers agree and the stored base facts of every "
             "EDB relation are unchanged after every execution.",
             "Only relations that existed before the execution are compared for 'base facts unchanged'. " + TB, "7 C04"),
+    "C05": ("plan", "plan trees before / after every real rewrite pass evaluated by TLC with Plan.tla (Eval) and compared with each "
+            "other and with the real executor (PlanTrace.tla)",
+            "model_checking",
+            "Plan.tla is a denotational semantics of the IR (Scan, Map, Filter, Join, Antijoin, Distinct, Union, Compute, Aggregate, "
+            "FlatMap, JoinFlatMap; every predicate form; the executor's join row layout). Seeded random well-formed trees of depth <= 4 "
+            "over 6 typed relations and the trees the real IRBuilder produces for generated rules go through JoinPlanner::plan_joins, "
+            "BooleanSpecializer::specialize, Optimizer::optimize and all three in pipeline order; trees before and after are "
+            "serialized and executed by the real CodeGenerator on a random database. A record is judged iff exec(before) = "
+            "Eval(before) (on this tree: all of them); accepted iff for every pass the pass did not panic, Eval(after) = Eval(before) "
+            "and exec(after) = Eval(before).",
+            "Set semantics (aggregates only over a Distinct input), integer arithmetic + - *, floats / strings only compared; random "
+            "trees use each right column as a join key at most once (what the IR builder produces). Subplan sharing and SIP are not "
+            "plan-to-plan rewrites of one tree and are covered by C02 instead. " + TB, "7 C05"),
     "C06": ("datalog-oracle", "TLA+ trace validation: aggregate semantics of Datalog.tla under all 32 settings",
             "model_checking",
             "Aggregate query heads (count, sum, min, max, avg, count_distinct; 0-2 group keys; joins that multiply bindings, "
@@ -285,6 +298,9 @@ ENGINES.append({"name": "laws", "path": "tools/eng_laws.py", "serves_properties"
                                   "IndexTrace.tla, VecIndexTrace.tla, LawsTrace.tla"})
 ENGINES.append({"name": "proof", "path": "tools/eng_proof.py", "serves_properties": ["C21", "C22", "C23"],
                 "kind_free_text": ".why / .why_not answers of the real Handler judged by spec/ProofTrace.tla over Datalog!Model"})
+ENGINES.append({"name": "plan", "path": "tools/eng_plan.py", "serves_properties": ["C05"],
+                "kind_free_text": "IR plan trees before/after the real rewrite passes, serialized by the harness; spec/Plan.tla gives them a "
+                                  "denotation, spec/PlanTrace.tla compares Eval(before), Eval(after) and the real executor's results"})
 ENGINES.append({"name": "rules", "path": "tools/eng_rules.py", "serves_properties": ["C09"],
                 "kind_free_text": "generated rules through the real parser / Display and the four submission modes of the real Handler; "
                                   "spec/RuleTrace.tla judges round trip, agreement of the modes and Datalog!Answer"})
